@@ -137,6 +137,7 @@ func (server *Server) serveConn(conn net.Conn) {
 			ClientHelloRecord: rec,
 		}); err != nil {
 			// the HTTP/1.1 server is shutting down, nobody will serve this connection
+			verifhook.At("proxyserver.h1.send_aborted", conn)
 			server.vlogf("http/1.1 server is closed, dropping connection (%s): %s", conn.RemoteAddr(), err)
 			done()
 		} else {
